@@ -75,7 +75,9 @@ BindAt(pos, pat, src, names) ==
                              SExpr(ECall(EVar(FN), <<Src>>)), SPrint(Src)>>
 
 \* object pattern items
-OItems == {"a", "b", "ra", "rb_", "us", "comp", "nest", "rest", "resta", "restus", "spr", "nonvar", "dupa", "miss"}
+OItems == {"a", "b", "ra", "rb_", "us", "comp", "nest", "rest", "resta", "restus", "spr", "nonvar", "dupa", "miss",
+           "ikey", "vkey"}
+KV == <<107, 118>>          \* the variable kv holds "b"
 KA == <<97>>
 KB == <<98>>
 KC == <<99>>
@@ -87,6 +89,8 @@ OItemE(it) ==
       [] it = "us"   -> Short(EVar(N_us))
       [] it = "comp" -> Pair(EBin("+", EStr(<<>>), EStr(KB)), V(4))     \* ("" + "b"): d
       [] it = "nest" -> Pair(EStr(KC), EPat(<<V(5)>>))           \* "c": [e]
+      [] it = "ikey" -> Pair(EIStr(<<Lit(<<>>), SlotP(0, EVar(KV)), Lit(<<>>)>>), V(4))     \* $"${kv}": d
+      [] it = "vkey" -> Pair(EVar(KV), V(4))                    \* kv: d  (the key is the variable's value)
       [] it = "rest" -> PCollect(Rest)
       [] it = "resta" -> PCollect(V(1))                         \* ..a   (collect into a name of the pattern)
       [] it = "restus" -> PCollect(EVar(N_us))
@@ -96,16 +100,19 @@ OItemE(it) ==
       [] it = "miss" -> Short(EVar(<<122>>))                     \* z: not a property
 ONames(it) ==
     CASE it \in {"a", "dupa", "resta"} -> <<V(1)>> [] it \in {"b", "spr"} -> <<V(2)>> [] it = "ra" -> <<V(3)>>
-      [] it = "comp" -> <<V(4)>> [] it = "nest" -> <<V(5)>> [] it = "rest" -> <<Rest>>
+      [] it \in {"comp", "ikey", "vkey"} -> <<V(4)>> [] it = "nest" -> <<V(5)>> [] it = "rest" -> <<Rest>>
       [] it = "miss" -> <<EVar(<<122>>)>> [] OTHER -> <<>>
 ObjPat(items) == EObj([i \in 1 .. Len(items) |-> OItemE(items[i])])
 NamesOfO(items) == Concat([i \in 1 .. Len(items) |-> ONames(items[i])])
-OSrcs == {"e", "a", "ab", "abc", "null", "list", "int"}
+OSrcs == {"e", "a", "ab", "abc", "abd", "null", "list", "int"}
 SrcObj(sx) ==
     CASE sx = "e"   -> EObj(<<>>)
       [] sx = "a"   -> EObj(<<Pair(EStr(KA), I(1))>>)
       [] sx = "ab"  -> EObj(<<Pair(EStr(KB), I(2)), Pair(EStr(KA), I(1))>>)
       [] sx = "abc" -> EObj(<<Pair(EStr(KA), I(1)), Pair(EStr(KB), I(2)), Pair(EStr(KC), EList(<<I(3)>>))>>)
+      \* with decoys: a key that is the *text* of an interpolated key, and the name of the key variable
+      [] sx = "abd" -> EObj(<<Pair(EStr(KA), I(1)), Pair(EStr(KB), I(2)), Pair(EStr(<<36, 123, 107, 118, 125>>), I(98)),
+                              Pair(EStr(KV), I(97))>>)
       [] sx = "null" -> ENull
       [] sx = "list" -> EList(<<I(1)>>)
       [] sx = "int"  -> I(7)
@@ -194,7 +201,7 @@ C13ProgOf(p) ==
     CASE p[1] = "lp" ->
             BindAt(p[5], ListPat(p[2], SplitCollect(p[3])), SrcList(SplitKind(p[3]), p[4]),
                    NamesOfL(p[2], SplitCollect(p[3])))
-      [] p[1] = "op" -> BindAt(p[5], ObjPat(p[2]), SrcObj(p[3]), NamesOfO(p[2]))
+      [] p[1] = "op" -> <<SDecl(EVar(KV), EStr(KB))>> \o BindAt(p[5], ObjPat(p[2]), SrcObj(p[3]), NamesOfO(p[2]))
       [] p[1] = "fort" -> <<SFor(ForTargets[p[2][1]], ForIters[p[3]], PrintAll(ForTargetNames(p[2][1]))), SPrint(I(0))>>
       [] p[1] = "lpa" -> BindAt(p[5], ListPatInto(p[2], V(1)), SrcList("ints", p[4]),
                                 Concat([i \in 1 .. Len(p[2]) |-> LNames(p[2][i])]) \o <<V(1)>>)
